@@ -48,6 +48,9 @@ type Scenario struct {
 //	extend-returned  b := Msgs[Msg].Bounds(); b.Extend(Msgs[Add]) — the returned box is the caller's to change
 //	push             a fresh copy of Msgs[Add] is pushed into the collection found at Path inside Msgs[Msg]
 //	write            ordinate Ord of the non-collection found at Path inside Msgs[Msg] is overwritten with V
+//	badsetcoords     SetCoords is called on the non-collection found at Path with its own coordinates plus one
+//	                 far-away coordinate and then one of the wrong length: the call must fail, and whatever the
+//	                 receiver then holds, its bounds are the box of the coordinates it reports
 //	setlayout        SetLayout(the layout it reports) is called on the collection found at Path inside Msgs[Msg]
 //	                 (whether that succeeds is not this property's business; the coordinates are what they were)
 type Later struct {
@@ -147,7 +150,7 @@ func (prop) Decode(raw []byte) (any, error) {
 		}
 	}
 	for _, l := range s.Later {
-		if l.K != "extend-returned" && l.K != "push" && l.K != "write" && l.K != "setlayout" {
+		if l.K != "extend-returned" && l.K != "push" && l.K != "write" && l.K != "setlayout" && l.K != "badsetcoords" {
 			return nil, fmt.Errorf("bad later step %q", l.K)
 		}
 		if l.Msg < 0 || l.Msg >= len(s.Msgs) || l.Add < 0 || l.Add >= len(s.Msgs) || l.Ord < 0 || len(l.Path) > 6 || math.IsNaN(float64(l.V)) || math.IsInf(float64(l.V), 0) {
@@ -294,7 +297,7 @@ func (prop) Generate(r *prng.Rand, phase string) any {
 		}
 	}
 	for i := r.Pick(3, 2, 2, 1); i > 0; i-- {
-		l := Later{K: []string{"extend-returned", "push", "write", "setlayout"}[r.Pick(3, 3, 3, 1)], Msg: r.Intn(n), Add: r.Intn(n), Ord: r.Intn(64), V: mgeom.F(r.SmallFloat())}
+		l := Later{K: []string{"extend-returned", "push", "write", "setlayout", "badsetcoords"}[r.Pick(3, 3, 3, 1, 2)], Msg: r.Intn(n), Add: r.Intn(n), Ord: r.Intn(64), V: mgeom.F(r.SmallFloat())}
 		if l.K == "push" || l.K == "setlayout" {
 			// prefer a collection message when there is one
 			for tries := 0; tries < 4 && s.Msgs[l.Msg].T != mgeom.GC; tries++ {
@@ -303,7 +306,7 @@ func (prop) Generate(r *prng.Rand, phase string) any {
 		}
 		// a path into the message as generated (steps that find nothing at
 		// their path at run time are skipped)
-		for m := s.Msgs[l.Msg]; m.T == mgeom.GC && len(m.G) > 0 && (l.K == "write" || r.Chance(0.6)); {
+		for m := s.Msgs[l.Msg]; m.T == mgeom.GC && len(m.G) > 0 && (l.K == "write" || l.K == "badsetcoords" || r.Chance(0.6)); {
 			k := r.Intn(len(m.G))
 			l.Path = append(l.Path, k)
 			m = m.G[k]
@@ -985,6 +988,144 @@ func bboxMatchesEmitted(res *core.Result, g geom.T, m *mgeom.Geom, digits int) b
 	return true
 }
 
+// badSetCoords calls SetCoords on g with the coordinates of its model m, then
+// one far-away coordinate of the right length and one coordinate that is one
+// ordinate too long, both appended to the last innermost list.
+func badSetCoords(g geom.T, m *mgeom.Geom, far float64) error {
+	st := mgeom.Stride(m.L)
+	good, bad := make(geom.Coord, st), make(geom.Coord, st+1)
+	for i := range good {
+		good[i] = 1e6 + far
+	}
+	for i := range bad {
+		bad[i] = -1e6 + far
+	}
+	lib := func(cs []mgeom.Coord) []geom.Coord {
+		out := make([]geom.Coord, len(cs))
+		for i, c := range cs {
+			out[i] = make(geom.Coord, len(c))
+			for j, o := range c {
+				out[i][j] = float64(o)
+			}
+		}
+		return out
+	}
+	lib2 := func(css [][]mgeom.Coord) [][]geom.Coord {
+		out := make([][]geom.Coord, len(css))
+		for i := range css {
+			out[i] = lib(css[i])
+		}
+		return out
+	}
+	var err error
+	switch g := g.(type) {
+	case *geom.Point:
+		_, err = g.SetCoords(bad)
+	case *geom.LineString:
+		_, err = g.SetCoords(append(lib(m.P[0][0]), good, bad))
+	case *geom.LinearRing:
+		_, err = g.SetCoords(append(lib(m.P[0][0]), good, bad))
+	case *geom.MultiPoint:
+		cs := make([]geom.Coord, 0, len(m.P[0])+2)
+		for _, pt := range m.P[0] {
+			if len(pt) == 1 {
+				cs = append(cs, lib(pt)[0])
+			} else {
+				cs = append(cs, nil)
+			}
+		}
+		_, err = g.SetCoords(append(cs, good, bad))
+	case *geom.Polygon:
+		rings := lib2(m.P[0])
+		if len(rings) == 0 {
+			rings = [][]geom.Coord{{}}
+		}
+		rings[len(rings)-1] = append(rings[len(rings)-1], good, bad)
+		_, err = g.SetCoords(rings)
+	case *geom.MultiLineString:
+		lines := lib2(m.P[0])
+		if len(lines) == 0 {
+			lines = [][]geom.Coord{{}}
+		}
+		lines[len(lines)-1] = append(lines[len(lines)-1], good, bad)
+		_, err = g.SetCoords(lines)
+	case *geom.MultiPolygon:
+		polys := make([][][]geom.Coord, len(m.P))
+		for i := range m.P {
+			polys[i] = lib2(m.P[i])
+		}
+		if len(polys) == 0 {
+			polys = [][][]geom.Coord{{{}}}
+		}
+		last := len(polys) - 1
+		if len(polys[last]) == 0 {
+			polys[last] = [][]geom.Coord{{}}
+		}
+		lr := len(polys[last]) - 1
+		polys[last][lr] = append(polys[last][lr], good, bad)
+		_, err = g.SetCoords(polys)
+	default:
+		err = fmt.Errorf("no SetCoords on %T", g)
+	}
+	return err
+}
+
+// coordsBox folds the nested coordinates a non-collection reports through
+// Coords() into the named-dimension box; ok is false when Coords() panics.
+func coordsBox(g geom.T, layout int) (b box, ok bool) {
+	ds := dimsOf(layout)
+	add := func(c geom.Coord) {
+		for i, o := range c {
+			if i < len(ds) {
+				b.add(ds[i], o)
+			}
+		}
+	}
+	p := core.Guard(func() {
+		switch g := g.(type) {
+		case *geom.Point:
+			if !g.Empty() {
+				add(g.Coords())
+			}
+		case *geom.LineString:
+			for _, c := range g.Coords() {
+				add(c)
+			}
+		case *geom.LinearRing:
+			for _, c := range g.Coords() {
+				add(c)
+			}
+		case *geom.MultiPoint:
+			for _, c := range g.Coords() {
+				if c != nil {
+					add(c)
+				}
+			}
+		case *geom.Polygon:
+			for _, r := range g.Coords() {
+				for _, c := range r {
+					add(c)
+				}
+			}
+		case *geom.MultiLineString:
+			for _, r := range g.Coords() {
+				for _, c := range r {
+					add(c)
+				}
+			}
+		case *geom.MultiPolygon:
+			for _, pg := range g.Coords() {
+				for _, r := range pg {
+					for _, c := range r {
+						add(c)
+					}
+				}
+			}
+		}
+	})
+	return b, p == ""
+}
+
 func scribbleCoords(g geom.T) {
 	if gc, ok := g.(*geom.GeometryCollection); ok {
 		for _, c := range gc.Geoms() {
@@ -1008,7 +1149,12 @@ func laterLife(res *core.Result, log *core.Log, s *Scenario, geoms []geom.T) boo
 	for i, m := range s.Msgs {
 		cur[i] = m.Clone().Norm()
 	}
+	spoiled := map[int]bool{}
 	for li, l := range s.Later {
+		if spoiled[l.Msg] || (l.K == "extend-returned" && spoiled[l.Add]) {
+			res.Count("later:skipped", 1)
+			continue
+		}
 		m, g := cur[l.Msg], geoms[l.Msg]
 		what := fmt.Sprintf("later step %d (%s on message %d)", li, l.K, l.Msg)
 		switch l.K {
@@ -1019,7 +1165,7 @@ func laterLife(res *core.Result, log *core.Log, s *Scenario, geoms []geom.T) boo
 				return false
 			}
 			res.Count("later:extend-returned", 1)
-		case "push", "write", "setlayout":
+		case "push", "write", "setlayout", "badsetcoords":
 			// walk to the target
 			ok := true
 			for _, k := range l.Path {
@@ -1034,7 +1180,49 @@ func laterLife(res *core.Result, log *core.Log, s *Scenario, geoms []geom.T) boo
 				res.Count("later:skipped", 1)
 				continue
 			}
-			if l.K == "setlayout" {
+			if l.K == "badsetcoords" {
+				if m.T == mgeom.GC || m.L == 0 {
+					res.Count("later:skipped", 1)
+					continue
+				}
+				var serr error
+				if p := core.Guard(func() { serr = badSetCoords(g, m, float64(l.V)) }); p != "" {
+					res.Fail("panic", "panic:later:"+core.PanicSite(p), "%s: SetCoords with a coordinate of the wrong length panicked: %s", what, p)
+					return false
+				}
+				if serr == nil {
+					// accepting it is another property's business (C01)
+					res.Count("later:skipped", 1)
+				} else {
+					res.Count("later:setcoords-rejected", 1)
+				}
+				// whatever the receiver holds now is what it reports
+				// the receiver's bounds are the box of the coordinates it
+				// reports through Coords(), well-formed or not
+				if cb, ok := coordsBox(g, m.L); ok {
+					var gb *geom.Bounds
+					if p := core.Guard(func() { gb = g.Bounds() }); p == "" {
+						if d := compare(gb, cb); d != "" {
+							res.Fail("bounds-stale", "bounds-differ-from-reported-coordinates:"+m.T, "after %s (rejected: %v) the %s's Bounds() are %s but the coordinates Coords() reports span something else: %s", what, serr, m.T, describeBounds(gb), d)
+							return false
+						}
+					}
+				}
+				obs, oerr := mgeom.Observe(geoms[l.Msg])
+				if oerr != nil {
+					// The rejected SetCoords left an ill-formed receiver (on
+					// the pinned tree a MultiPoint keeps the end offsets of
+					// the points before the bad one over nil coordinates).
+					// That is C01's business, which this technique does not
+					// decide; nothing about bounds is stated for a geometry
+					// whose coordinates cannot be read. The message is left
+					// alone from here on.
+					res.Count("probe:ill-formed-after-rejected-setcoords", 1)
+					spoiled[l.Msg] = true
+					continue
+				}
+				cur[l.Msg] = obs
+			} else if l.K == "setlayout" {
 				gc, isGC := g.(*geom.GeometryCollection)
 				if m.T != mgeom.GC || !isGC {
 					res.Count("later:skipped", 1)
